@@ -104,19 +104,57 @@ def r1(ctx, F, rule, sfx):
     ip2 = I.Interp(F)
     v2, _ = ip2.call_body(g, [ip2.ref_to(sp), RF.sym('i'), RF.sym('j'), RF.sym('k')])
     ctx.evaluations += ip2.evaluations
-    some = None
-    cond = None
-    for conds, leaf in cases(v2):
-        if isinstance(leaf, I.St) and leaf.variant == 'Some':
-            some, cond = leaf, conds
     cx, cy, cz = [RF.atom(nf.app_atom('field', nf.app_atom('field', nf.sym_atom('sp'), 'cdim'), c)) for c in AX]
     want = RF.sym('i') * cy * cz + RF.sym('j') * cz + RF.sym('k')
-    ok = some is not None and as_rf(some.fields[0]) == want
-    ctx.check(rule, 'get_cid-index' + sfx, ok, repr(some.fields[0])[:100] if some else repr(v2)[:100], 'i*cdim_y*cdim_z + j*cdim_z + k', where(g), key_extra='cid')
-    if cond is not None:
-        txt = ' '.join(repr(c) for c in cond)
-        okr = all(s in txt for s in ('(0 <= i)', '(0 <= j)', '(0 <= k)', '(i < sp.cdim.x)', '(j < sp.cdim.y)', '(k < sp.cdim.z)'))
-        ctx.check(rule, 'get_cid-range-check' + sfx, okr, txt[:200], '0 <= i < cdim_x etc., None otherwise', where(g), key_extra='cid-range')
+    # decision table over "coordinate is non-negative" / "coordinate is below the cell count" per axis, however the tests are written
+    cdims = {'i': repr(cx), 'j': repr(cy), 'k': repr(cz)}
+
+    def classify(leaf):
+        if leaf.op != 'cmp':
+            return None
+        op, a, b = leaf.args
+        ta, tb = repr(a), repr(b)
+        for v_ in 'ijk':
+            if {ta, tb} == {v_, '0'}:
+                v_left = ta == v_
+                # normalise to  v >= 0
+                nonneg = {'<': not v_left, '>=': v_left, '<=': not v_left and None, '>': None}.get(op)
+                if op == '<':
+                    return ('NN' + v_, not v_left) if v_left else None
+                if op == '>=':
+                    return ('NN' + v_, True) if v_left else None
+                if op == '<=':
+                    return ('NN' + v_, True) if not v_left else None
+                if op == '>':
+                    return ('NN' + v_, False) if not v_left else None
+            if {ta, tb} == {v_, cdims[v_]}:
+                v_left = ta == v_
+                if op == '<':
+                    return ('IN' + v_, True) if v_left else None
+                if op == '>=':
+                    return ('IN' + v_, False) if v_left else None
+                if op == '>':
+                    return ('IN' + v_, True) if not v_left else None
+                if op == '<=':
+                    return ('IN' + v_, False) if not v_left else None
+        return None
+    names = ['NNi', 'INi', 'NNj', 'INj', 'NNk', 'INk']
+    T = dtab.Table(names, classify)
+    tab = T.tabulate(v2)
+    badrows = []
+    idx_ok = True
+    for env in T.rows():
+        got = tab[tuple(env[n] for n in names)]
+        inside = all(env.values())
+        if inside:
+            good = isinstance(got, I.St) and got.variant == 'Some' and as_rf(got.fields[0]) == want
+            idx_ok = idx_ok and good
+        else:
+            good = isinstance(got, I.St) and got.variant == 'None'
+        if not good:
+            badrows.append('[%s] -> %s' % (dtab.fmt_env(env), repr(got)[:60]))
+    ctx.check(rule, 'get_cid-index' + sfx, idx_ok, badrows[0] if not idx_ok and badrows else 'Some(i*cy*cz + j*cz + k) when all six range tests pass', 'i*cdim_y*cdim_z + j*cdim_z + k', where(g), key_extra='cid')
+    ctx.check(rule, 'get_cid-range-check' + sfx, not [b for b in badrows if 'Some' in b or idx_ok], '%d of 64 rows wrong%s' % (len(badrows), (': ' + badrows[0]) if badrows else ''), 'Some iff 0 <= i < cdim_x, 0 <= j < cdim_y, 0 <= k < cdim_z; None otherwise', where(g), key_extra='cid-range')
     # binning
     ap = F.body_by_suffix('space::Space::add_parts')
     ip3 = I.Interp(F, no_inline=[g['path']])
@@ -397,29 +435,44 @@ def r3(ctx, F, rule, sfx):
     ctx.evaluations += ip.evaluations
     w = where(rb)
     ev = [e for e in ip.events if e.callee == g['path']]
+    nexts = next_events(ip, rb)
+    # the offsets: loop counters (nested `for`) or elements of ranges combined by flat_map / map / filter / filter_map
+    counters = []         # (offset symbol as RF, text of its range)
+    chain_guards = None
+    if not [x for x in nexts if x.in_loop]:
+        ip = I.Interp(F, no_inline=[g['path']])
+        v, _ = ip.call_body(rb, [ip.ref_to(sp), RF.sym('cid'), RF.sym('r')])
+        streams = [leaf for conds, leaf in cases(v) if isinstance(leaf, I.Sym) and 'RangeInclusive' in repr(leaf)]
+        if len(streams) != 1:
+            raise AnalysisIncomplete('get_r_ring neither loops over offsets nor returns a stream over offset ranges')
+        n0 = len(ip.events)
+        item, chain_guards, sources = expand_stream(ip, streams[0])
+        ev = [e for e in ip.events[n0:] if e.callee == g['path']]
+        counters = [(sym, txt) for sym, txt in sources]
+    else:
+        for x in nexts:
+            rec, li = loop_record_of(ip, x)
+            counters.append((as_rf(I.get_field(I.downcast(x.result, 'Some'), 0, 'i32')), repr(I.frozen(rec['init'][li]))))
     if len(ev) != 1:
         raise AnalysisIncomplete('get_cid calls in get_r_ring: %d' % len(ev))
     e = ev[0]
-    nexts = next_events(ip, rb)
     rngs = []
     offs = []
     for c in range(3):
         a = as_rf(e.fargs[1 + c])
-        # a == base_c + d_c with d_c a loop counter over -r..=r
+        # a == base_c + d_c with d_c an offset running over -r..=r
         found = None
-        for x in nexts:
-            it = as_rf(I.get_field(I.downcast(x.result, 'Some'), 0, 'i32'))
+        for it, rng_txt in counters:
             rest = a - it
             if not any(at.id == I.single_atom(it).id for at in I.atoms_deep(rest).values()):
-                rec, li = loop_record_of(ip, x)
-                found = (x, repr(I.frozen(rec['init'][li])), rest)
+                found = (it, rng_txt, rest)
         if found is None:
             ctx.bad(rule, 'ring-offset-%s%s' % (AX[c], sfx), repr(a)[:100], 'cell index + d with d in -r..=r', w, key_extra='offset:%s' % AX[c])
             continue
-        x, rng, rest = found
+        it, rng, rest = found
         ok = 'RangeInclusive::new(-r, r)' in rng
         ctx.check(rule, 'ring-offset-%s%s' % (AX[c], sfx), ok, 'd over %s' % rng[-60:], 'd in -r..=r', w, key_extra='range:%s' % AX[c])
-        offs.append((c, rest, as_rf(I.get_field(I.downcast(x.result, 'Some'), 0, 'i32'))))
+        offs.append((c, rest, it))
     # base indices decode cid consistently with get_cid
     if len(offs) == 3:
         cx, cy, cz = [as_rf(I.get_field(I.get_field(sp, 'cdim'), c, 'u32')) for c in AX]
@@ -431,15 +484,16 @@ def r3(ctx, F, rule, sfx):
         ds = [o[2] for o in offs]
         want_terms = {repr(nf.fn_abs(d)) for d in ds}
         keep = None
-        for gd in e.guard:
+        all_guards = list(e.guard) + [x for x in (chain_guards or []) if not (x.op == 'atom' and 'get_cid' in repr(x))]
+        for gd in all_guards:
             if gd.op == 'cmp' and gd.args[0] == '<=' and repr(gd.args[1]) == 'r' and isinstance(gd.args[2], RF):
                 terms = set()
                 flat_min(gd.args[2], terms, 'max')
                 if terms == want_terms:
                     keep = gd
         ok = keep is not None
-        extra = [gd for gd in e.guard if gd is not keep and repr(gd) != '(r != 0)' and not (dtab.is_discr_eq(gd) and '::next(' in repr(gd))]
-        ctx.check(rule, 'ring-is-chebyshev-shell' + sfx, ok and not extra, [repr(gd)[:90] for gd in e.guard if not ('::next(' in repr(gd))], 'offset kept iff max(|di|,|dj|,|dk|) >= r', w, key_extra='shell')
+        extra = [gd for gd in all_guards if gd is not keep and repr(gd) != '(r != 0)' and not (dtab.is_discr_eq(gd) and '::next(' in repr(gd))]
+        ctx.check(rule, 'ring-is-chebyshev-shell' + sfx, ok and not extra, [repr(gd)[:90] for gd in all_guards if not ('::next(' in repr(gd))], 'offset kept iff max(|di|,|dj|,|dk|) >= r', w, key_extra='shell')
 
 
 def r4(ctx, F, rule, sfx):
